@@ -28,7 +28,7 @@ static mut D0: usize = 0;
 /// W_BIT: the result is the first non-zero region met walking down from data_addr's region while the region start is
 /// >= data_addr - limit + 1; None iff there is none. C22 discharges this specification for the fast path (modular,
 /// 64-byte table window), for the region-by-region path (<= 10 regions) and hence for their debug cross-check.
-unsafe fn contract_find_prev(_spec: &mmtk::util::metadata::side_metadata::SideMetadataSpec, data_addr: Address, limit: usize) -> Option<Address> {
+unsafe fn contract_find_prev<T: mmtk::util::metadata::MetadataValue>(_spec: &mmtk::util::metadata::side_metadata::SideMetadataSpec, data_addr: Address, limit: usize) -> Option<Address> {
     let p = data_addr.as_usize();
     assert!(limit > 0 && p >= D0 + 64 && p < D0 + 8 * 8 * MW, "C08.modular.find_prev_called_inside_the_window");
     let lowest = p - (limit - 1).min(p);
